@@ -8,7 +8,7 @@ import nbformat
 
 import nbdime.log
 from ..diff_format import (
-    DiffOp, op_removerange, op_remove, op_patch, op_replace)
+    DiffOp, op_add, op_removerange, op_remove, op_patch, op_replace)
 from ..patching import patch
 from ..utils import (
     r_is_int, star_path, join_path, is_prefix_array, find_shared_prefix, json_equal)
@@ -569,6 +569,12 @@ def resolve_action(base, decision):
     elif a in ("clear", "remove"):
         key, = set(d.key for d in decision.local_diff + decision.remote_diff)
         if a == 'clear':
+            if isinstance(base, dict) and key not in base:
+                # Both sides add the key with different values (e.g. a
+                # markdown cell converted to a code cell on both sides, with
+                # different execution counts): add the cleared value
+                added = (decision.local_diff + decision.remote_diff)[0]
+                return [op_add(key, make_cleared_value(added.value))]
             return [op_replace(key, make_cleared_value(base[key]))]
         elif isinstance(base, (list, str)):
             return [op_removerange(key, 1)]
